@@ -212,6 +212,87 @@ pub fn explore(opts: &Opts) -> Explored {
             }
         }
     });
+    // adjoints that are infinite, or whose sum over the broadcast positions overflows: all terms of
+    // one sign, so the summed adjoint is that infinity in every order (and never NaN)
+    let mut local = local;
+    {
+        let l = &mut local;
+        let (big, small) = if IS_F32 { (3.0e38, 1.5) } else { (1.0e308, 1.5) };
+        for a in &sh {
+            for b in &sh {
+                let out = match broadcast_dims(a, b) {
+                    Some(o) => o,
+                    None => continue,
+                };
+                if &out == b || numel(&out) > 12 {
+                    continue;
+                }
+                let on = numel(&out);
+                for kind in 0..4u8 {
+                    for b_first in [false, true] {
+                        for negate in [false, true] {
+                            let case = || format!("{}{}{} with adjoint kind {} (0: one +inf, 1: all huge, 2: one -inf among negatives, 3: last +inf)", if b_first { fmt_dims(b) } else { fmt_dims(a) }, if negate { "-" } else { "+" }, if b_first { fmt_dims(a) } else { fmt_dims(b) }, kind);
+                            if !l.want(&case) {
+                                continue;
+                            }
+                            let seed: Vec<f64> = (0..on)
+                                .map(|i| match kind {
+                                    0 => if i == 0 { f64::INFINITY } else { small + i as f64 },
+                                    1 => big,
+                                    2 => if i == on / 2 { f64::NEG_INFINITY } else { -small - i as f64 },
+                                    _ => if i == on - 1 { f64::INFINITY } else { small },
+                                })
+                                .collect();
+                            // expected: a's and b's gradients are the seed summed over their broadcast positions,
+                            // with the sign of the operand's position under subtraction
+                            let expect = |dims: &Vec<usize>, sign: f64| -> Vec<Du> {
+                                let mut acc = vec![0.0f64; numel(dims)];
+                                let mut mag = vec![0.0f64; numel(dims)];
+                                for i in 0..on {
+                                    let j = bidx(&unravel(i, &out), dims);
+                                    acc[j] += sign * seed[i];
+                                    mag[j] += seed[i].abs();
+                                }
+                                acc.iter().zip(&mag).map(|(v, m)| Du { v: 0.0, d: *v, m: 0.0, md: *m, ex: false, amb: false }).collect()
+                            };
+                            let (first, second) = if b_first { (b, a) } else { (a, b) };
+                            let want_first = expect(first, 1.0);
+                            let want_second = expect(second, if negate { -1.0 } else { 1.0 });
+                            l.states += 1;
+                            l.transitions += 1;
+                            l.validated += 1;
+                            let (fd, sd, od) = (first.clone(), second.clone(), out.clone());
+                            let fv = vals(numel(first), 0, var);
+                            let sv = vals(numel(second), 1, var);
+                            let seedc = seed.clone();
+                            let r = run_catch(move || {
+                                let x = arr(&fd, &fv).tracked();
+                                let y = arr(&sd, &sv).tracked();
+                                let z = if negate { &x - &y } else { &x + &y };
+                                z.backward(Some(arr(&od, &seedc)));
+                                let gx = x.gradient().clone().unwrap();
+                                let gy = y.gradient().clone().unwrap();
+                                (gx.dimensions().to_vec(), gx.values().to_vec(), gy.dimensions().to_vec(), gy.values().to_vec())
+                            });
+                            match r {
+                                Err(m) => l.violation("broadcast/infinite-adjoint", case(), format!("panicked: {}", m)),
+                                Ok((d1, v1, d2, v2)) => {
+                                    l.outcome(digest_vals(&d1, &v1) ^ digest_vals(&d2, &v2).rotate_left(1));
+                                    if &d1 != first || &d2 != second {
+                                        l.violation("broadcast/infinite-adjoint", case(), format!("gradient dimensions {:?} and {:?}", d1, d2));
+                                    } else if let Err(e) = cmp_slice_inf(&v1, &want_first, Part::Tangent) {
+                                        l.violation("broadcast/infinite-adjoint", case(), format!("first operand's gradient {}: {}", fmt_vals(&v1), e));
+                                    } else if let Err(e) = cmp_slice_inf(&v2, &want_second, Part::Tangent) {
+                                        l.violation("broadcast/infinite-adjoint", case(), format!("second operand's gradient {}: {}", fmt_vals(&v2), e));
+                                    }
+                                }
+                            }
+                        }
+                    }
+                }
+            }
+        }
+    }
     Explored {
         local,
         bounds: json!({"shapes": "S(3,3) u S(4,2)", "programs": items.len(), "ops": ["add", "mul", "div", "axpy(-2)", "matmul additive term"],
